@@ -1,5 +1,8 @@
 import Cfdm.Driver.Parse
 import Cfdm.Driver.C03
+import Cfdm.Driver.C20
+import Cfdm.Driver.C14
+import Cfdm.Driver.C15
 open Cfdm.Driver
 
 def step (line : String) : String :=
@@ -11,6 +14,9 @@ def step (line : String) : String :=
     | some kv =>
       match hd.splitOn "." with
       | ["C03", sub] => C03.run sub kv
+      | ["C20", sub] => C20.run sub kv
+      | ["C14", sub] => C14.run sub kv
+      | ["C15", sub] => C15.run sub kv
       | _ => "bad-op"
 
 partial def loop (h : IO.FS.Stream) : IO Unit := do
